@@ -85,7 +85,13 @@ def rule_univ(ctx):
     # e.g. the close() of a file while the task is being cancelled)
     body = [s_ for s_ in wr.body if not (isinstance(s_, ast.Expr) and isinstance(s_.value, ast.Constant))]
     pre = [s_ for s_ in body if not isinstance(s_, ast.Try)]
-    ctx.ob("C13.UNIV", pre[0] if pre else wr, "the converter's wrapper consists of the try around the awaited operation only", not pre and len(body) == 1,
+    tries_ = [s_ for s_ in body if isinstance(s_, ast.Try)]
+    if len(tries_) == 1:
+        ti = body.index(tries_[0])
+        assigned = {t.id for n_ in tries_[0].body if isinstance(n_, ast.Assign) for t in n_.targets if isinstance(t, ast.Name)}
+        # after the try: nothing but `return <the value the try bound>`
+        pre = body[:ti] + [s_ for s_ in body[ti + 1:] if not (isinstance(s_, ast.Return) and isinstance(s_.value, ast.Name) and s_.value.id in assigned)]
+    ctx.ob("C13.UNIV", pre[0] if pre else wr, "the converter's wrapper consists of the try around the awaited operation only", not pre and len(tries_) == 1,
            f"the backend error converter executes `{src(pre[0])[:50] if pre else ''}` before (or instead of) the operation: an operation can be skipped - a close() that never runs leaves the file open",
            construct="universal_exception:extra statement")
     ctx.floor("C13.UNIV", 42, "backend operations")
